@@ -4,8 +4,10 @@ proof  : lean/Pyunicorn/Properties/C10.lean (lag bookkeeping, first-strict-|max|
          symmetrize_by_absmax, histogram index walks, mirrored / unmirrored MI matrices,
          signed-square Pearson: symmetry / bound / affine invariance / relabelling, ranks and
          their sum, quantile symbols, compiled == pure-Python windows, partial covariances of
-         the Gaussian estimators, normalised inverse; slice arithmetic regenerated from the
-         source by translate/gen_arith.py (arith_C10.json))
+         the Gaussian estimators (|r| <= 1 through residual vectors), normalised inverse; round 3:
+         the kNN kernel (growing cube, bounded insertion sort, counts, termination), only_tri /
+         _calculate_mi of the pure-Python class, surrogate matrices for every draw; slice / loop
+         arithmetic regenerated from the source by translate/gen_arith.py (arith_C10.json))
 tie    : exact correspondence of the Lean model with the compiled kernels at the kernel
          boundary on dyadic / small-integer inputs (rationals, integers, counts), and a
          tolerance correspondence (float32) with CouplingAnalysis.cross_correlation
@@ -311,7 +313,10 @@ def run(ctx):
         "_calculate_cc on small-integer arrays, integer data T 12..30 for the Gaussian estimators (past 1..2, "
         "ity/mit), partial correlation N 2..4, tau_max up to 12, bins up to 10, float32 caller arrays, "
         "power-of-two affine images 2^(+-20), 2^(+-40), 8-call histories on one object, T up to 90000 for the "
-        "binned estimator; distinct = "
+        "binned estimator; round 3: _get_nearest_neighbors on tied small-integer / half-integer / power-of-two-scaled "
+        "arrays (T 2..39, dim 2..6, every k < T), only_tri and _calculate_mi of the pure-Python class on small "
+        "integer / symbol arrays, surrogate matrices on re-played numpy draws (float32/float64, C/F), 8-call "
+        "histories on one pure-Python object; distinct = "
         "distinct (suite, shape, data, parameters); non-trivial = at least two non-constant series")
     ctx.trusted = common.DEFAULT_TRUSTED + [
         "log, sqrt, digamma, numpy.corrcoef, numpy.linalg.inv/pinv, scipy.linalg.qr are library "
@@ -323,7 +328,7 @@ def run(ctx):
 
     import time
     stages = ctx.extra.setdefault("stage_seconds", {"proofs": round(time.time() - ctx.t0, 1)})
-    for fn in (kernel_level, data_level_model, model_round2, oracle_coupling, oracle_wide, oracle_long_lags,
+    for fn in (kernel_level, data_level_model, model_round2, model_round3, oracle_coupling, oracle_wide, oracle_long_lags,
                oracle_periodic, oracle_knn, oracle_pure_python, oracle_climate, oracle_surrogates):
         t0 = time.time()
         fn(ctx, rng, nprng, quick)
@@ -1552,6 +1557,372 @@ def oracle_knn(ctx, rng, nprng, quick):
                      "kNN MI differs from the KSG-1 estimate with brute-force neighbour counts",
                      {"data": lst(d), "tau_max": tm, "knn": knn, "expected": lst(exp), "observed": lst(got)})
 
+
+
+# --------------------------------------------------------------------------
+# round 3: kNN kernel, only_tri / _calculate_mi of the pure-Python class, surrogate matrices
+# --------------------------------------------------------------------------
+
+def _mi_from_hist_like_code(h, cr, bins):
+    """the arithmetic of _calculate_mi in the same order (double precision)"""
+    jointent = 0.0
+    for m in range(bins):
+        for n in range(bins):
+            c = int(h[m * bins + n])
+            jointent -= (c * np.log(c)) if c > 0 else 0.0
+    jointent /= float(cr)
+    jointent += np.log(float(cr))
+    mi = 2. * np.log(bins) - jointent
+    mi /= np.log(bins)
+    return float(mi)
+
+
+def _terminates_probe(ctx):
+    """calls that must raise (k >= number of samples) instead of looping for ever; run in a child
+    process because a non-terminating compiled loop cannot be interrupted in-process"""
+    import subprocess
+    import sys
+    code = r"""
+import numpy as np, warnings, io, contextlib
+warnings.simplefilter('ignore')
+from pyunicorn.funcnet import CouplingAnalysis
+d = np.random.RandomState(3).randn(20, 2)
+out = []
+def probe(name, f):
+    try:
+        with contextlib.redirect_stdout(io.StringIO()):
+            f()
+        out.append(name + ':returned')
+    except (ValueError, AssertionError) as e:
+        out.append(name + ':raised')
+    print(out[-1], flush=True)
+probe('gnn_k=T', lambda: CouplingAnalysis.get_nearest_neighbors(d[:8].T.copy(), np.array([0, 1]), 8))
+probe('gnn_k=T+3', lambda: CouplingAnalysis.get_nearest_neighbors(d[:8].T.copy(), np.array([0, 1]), 11, standardize=False))
+probe('gnn_k=0', lambda: CouplingAnalysis.get_nearest_neighbors(d[:8].T.copy(), np.array([0, 1]), 0))
+probe('mi_knn', lambda: CouplingAnalysis(d.copy(), silence_level=3).mutual_information(tau_max=12, estimator='knn', knn=10, lag_mode='all'))
+probe('it_knn', lambda: CouplingAnalysis(d.copy(), silence_level=3).information_transfer(tau_max=9, estimator='knn', knn=10, past=2, lag_mode='all'))
+probe('gnn_k=T-1', lambda: CouplingAnalysis.get_nearest_neighbors(d[:8].T.copy(), np.array([0, 1]), 7))
+"""
+    env = dict(os.environ)
+    env["PYTHONPATH"] = os.pathsep.join(p for p in sys.path if p)
+    try:
+        r = subprocess.run([sys.executable, "-c", code], env=env, stdout=subprocess.PIPE,
+                           stderr=subprocess.PIPE, text=True, timeout=60)
+        lines = [ln for ln in r.stdout.split("\n") if ":" in ln]
+        hung = None
+    except subprocess.TimeoutExpired as e:
+        so = e.stdout.decode() if isinstance(e.stdout, bytes) else (e.stdout or "")
+        lines = [ln for ln in so.split("\n") if ":" in ln]
+        hung = True
+    ctx.count("oracle:knn:terminates_probe")
+    ctx.case(("knn-terminates",), True)
+    want = {"gnn_k=T": "raised", "gnn_k=T+3": "raised", "gnn_k=0": "raised", "mi_knn": "raised",
+            "it_knn": "raised", "gnn_k=T-1": "returned"}
+    got = dict(ln.split(":", 1) for ln in lines)
+    for name, w in want.items():
+        if got.get(name) != w:
+            ctx.fail({"kind": "coupling", "method": "get_nearest_neighbors", "check": "terminates"},
+                     f"nearest-neighbour search with k >= number of samples ({name}): expected '{w}', "
+                     f"observed '{got.get(name, 'no answer within 60 s (loop does not terminate)' if hung else 'no answer')}'"
+                     " — the growing-cube loop cannot find more than k samples (Lean: knn_never_terminates)",
+                     {"probe": name, "data": "RandomState(3).randn(20, 2)", "observed": got, "hung": bool(hung)})
+            break
+
+
+def model_round3(ctx, rng, nprng, quick):
+    from pyunicorn.funcnet._ext import numerics as FK
+    from pyunicorn.funcnet import CouplingAnalysis
+    from pyunicorn.funcnet.coupling_analysis_pure_python import CouplingAnalysisPurePython
+    cor = Cor(ctx, "Lean CouplingKnn / Coupling3 model == _get_nearest_neighbors (exact counts, ties), only_tri "
+                   "assembly of _calculate_cc / _calculate_mi (exact), _calculate_mi histograms / max scan, "
+                   "time / shuffled surrogate matrices on the recorded draw (tol 2e-5)")
+
+    # ---- (1) _get_nearest_neighbors at its boundary: exact, with ties ------------------------
+    for c in range(120 if quick else 1200):
+        dx, dy, dz = rng.choice([1, 1, 2]), rng.choice([1, 1, 2]), rng.choice([0, 0, 1, 2])
+        dim = dx + dy + dz
+        T = rng.randrange(2, 15) if c % 4 else rng.randrange(15, 40)
+        k = rng.randrange(1, T)
+        hi = rng.choice([1, 2, 4, 8, 30])
+        arr = nprng.randint(0, hi + 1, size=(dim, T)).astype(np.float32)
+        kind = rng.choice(["int", "half", "dup", "const", "scaled"])
+        if kind == "half":
+            arr = arr / np.float32(2.0)
+        elif kind == "dup" and T >= 3:
+            arr[:, 1] = arr[:, 0]                               # duplicated sample: zero distances
+            arr[:, T - 1] = arr[:, 0]
+        elif kind == "const":
+            arr[rng.randrange(dim)] = 1.0                       # a coordinate without spread
+        elif kind == "scaled":
+            arr = arr * np.float32(2.0 ** rng.choice([-20, 20, 40]))   # exact power-of-two rescaling
+        kx, ky, kz = FK._get_nearest_neighbors(arr.copy(), dim, T, dx, dy, k)
+        ctx.case(("knn3", dim, dx, dy, T, k, arr.tobytes().hex()), T >= 3)
+        ctx.count(f"kernel:knn:exact:{kind}")
+        ctx.count(f"kernel:knn:dims={dx},{dy},{dz}")
+        impl = f"{enc_ints(kx)};{enc_ints(ky)};{enc_ints(kz)}"
+        eps0 = Fraction((k / T) ** (1. / dim))
+        cor.add(f"knn {T} {dim} {dx} {dy} {k} {enc_rat(eps0)} {enc_rats(Fraction(float(v)) for v in arr.reshape(-1))}",
+                exact(impl))
+        # independent brute force (ties included: (k+1)-th smallest distance, strict counts)
+        ex, ey, ez = ref_knn_counts(arr.astype(float), dx, dy, k)
+        if list(map(int, kx)) != ex or list(map(int, ky)) != ey or list(map(int, kz)) != ez:
+            ctx.fail({"kind": "kernel", "kernel": "_get_nearest_neighbors", "check": "ties"},
+                     "neighbour counts differ from the brute-force KSG counts on data with tied distances",
+                     {"array": lst(arr), "dim_x": dx, "dim_y": dy, "k": k, "expected": [ex, ey, ez],
+                      "observed": [lst(kx), lst(ky), lst(kz)]})
+    _terminates_probe(ctx)
+
+    # ---- (2) only_tri assembly + (3) _calculate_mi of the pure-Python class -------------------
+    for c in range(60 if quick else 500):
+        N = rng.choice([2, 3, 3, 4])
+        tm = rng.choice([0, 1, 1, 2])
+        cr = rng.choice([2, 3, 4, 6, 8])
+        hi = rng.choice([1, 2, 3])
+        A = nprng.randint(-hi, hi + 1, size=(2 * tm + 1, N, cr)).astype(np.float32)
+        bins = rng.choice([2, 3, 4])
+        S = nprng.randint(0, bins, size=(2 * tm + 1, N, cr)).astype(np.uint8)
+        if rng.random() < 0.3 and tm >= 1:
+            S[0] = S[2 * tm]                                     # exact MI ties between the end windows
+        if rng.random() < 0.15:
+            S[:] = S[tm][0][None, None, :]                       # every series equal: MI maximal everywhere
+        with quiet():
+            full = CouplingAnalysisPurePython(np.zeros((2 * tm + 3, N)), silence_level=3)
+            tri = CouplingAnalysisPurePython(np.zeros((2 * tm + 3, N)), only_tri=True, silence_level=3)
+            res = {}
+            for mode in ("all", "sum", "max"):
+                res["cc", mode] = (full._calculate_cc(A.copy(), tau_max=tm, lag_mode=mode),
+                                   tri._calculate_cc(A.copy(), tau_max=tm, lag_mode=mode))
+                res["mi", mode] = (full._calculate_mi(S.copy(), corr_range=cr, bins=bins, tau_max=tm, lag_mode=mode),
+                                   tri._calculate_mi(S.copy(), corr_range=cr, bins=bins, tau_max=tm, lag_mode=mode))
+        ctx.case(("tri", N, tm, cr, bins, A.tobytes().hex(), S.tobytes().hex()), True,
+                 {"kernel": "CouplingAnalysisPurePython._calculate_cc/_calculate_mi(only_tri)", "array": lst(A),
+                  "symbols": lst(S), "tau_max": tm} if N == 2 and cr <= 2 else None)
+        ctx.count(f"kernel:only_tri:tau_max={tm}")
+        for (what, mode), (rf, rt) in res.items():
+            vals = enc_rats(Fraction(float(v)) for v in np.asarray(rf).reshape(-1))
+            if mode == "all":
+                impl = enc_rats(Fraction(float(v)) for v in np.asarray(rt).reshape(-1))
+            else:
+                impl = ";".join(enc_rats(Fraction(float(v)) for v in np.asarray(rt[q]).reshape(-1)) for q in (0, 1))
+            cor.add(f"tri {mode} {N} {tm} {vals}",
+                    (lambda m, impl=impl, what=what, mode=mode:
+                     None if m == impl else f"{what} only_tri '{mode}': model={m[:200]} impl={impl[:200]}"))
+        # independent of the model: only_tri = strict upper triangle of the full computation, mirrored with
+        # the lag reversed ('all'), as (positive-lag sum, negative-lag sum) exchanged ('sum'), as the same
+        # value with the opposite lag ('max'); the diagonal is not computed
+        for what in ("cc", "mi"):
+            fa, ta = res[what, "all"]
+            fs, tsu = res[what, "sum"]
+            fm, tmx = res[what, "max"]
+            exp_a, exp_s, exp_m = np.zeros_like(fa), np.zeros_like(fs), np.zeros_like(fm)
+            for i in range(N):
+                for j in range(i + 1, N):
+                    exp_a[:, i, j] = fa[:, i, j]
+                    exp_a[:, j, i] = fa[::-1, i, j]
+                    exp_s[0, i, j], exp_s[0, j, i] = fs[0, i, j], fs[1, i, j]
+                    exp_s[1, i, j], exp_s[1, j, i] = fs[1, i, j], fs[0, i, j]
+                    exp_m[0, i, j] = exp_m[0, j, i] = fm[0, i, j]
+                    exp_m[1, i, j], exp_m[1, j, i] = fm[1, i, j], -fm[1, i, j]
+            for mode, got_t, exp_t in (("all", ta, exp_a), ("sum", tsu, exp_s), ("max", tmx, exp_m)):
+                if not np.array_equal(np.asarray(got_t), exp_t):
+                    ctx.fail({"kind": "pure_python", "method": f"_calculate_{what}", "check": "only_tri", "lag_mode": mode},
+                             f"_calculate_{what}(only_tri=True, '{mode}') is not the upper triangle of the full computation "
+                             "mirrored into the lower triangle (lag reversed / sums exchanged / lag negated)",
+                             {"array": lst(A) if what == "cc" else lst(S), "tau_max": tm, "bins": bins,
+                              "expected": lst(exp_t), "observed": lst(got_t)})
+        # _calculate_mi: histograms -> values, max scan, sums
+        r_all, r_sum, r_max = res["mi", "all"][0], res["mi", "sum"][0], res["mi", "max"][0]
+
+        def compare(m, r_all=r_all, r_sum=r_sum, r_max=r_max, N=N, tm=tm, cr=cr, bins=bins):
+            parts = m.split("|")
+            if len(parts) != N * N * (2 * tm + 1) or "!dirty" in m:
+                return f"bad answer / histogram not reset: {m[:200]}"
+            q = 0
+            for i in range(N):
+                for j in range(N):
+                    f = []
+                    for t in range(2 * tm + 1):
+                        f.append(_mi_from_hist_like_code(dec_ints(parts[q]), cr, bins))
+                        q += 1
+                        if abs(f[-1] - float(r_all[t, i, j])) > 2e-6 * (1 + abs(f[-1])):
+                            return f"'all'[{t},{i},{j}]: from model histogram {f[-1]}, impl {float(r_all[t, i, j])}"
+                    s0, s1 = sum(f[tm:]), sum(f[:tm + 1])
+                    if abs(s0 - r_sum[0][i, j]) > 1e-5 * (1 + abs(s0)) or abs(s1 - r_sum[1][i, j]) > 1e-5 * (1 + abs(s1)):
+                        return f"'sum'[{i},{j}]: model ({s0}, {s1}) impl ({r_sum[0][i, j]}, {r_sum[1][i, j]})"
+                    mx = common.driver(ctx.pid, [f"pmimax {tm} {enc_rats(Fraction(v) for v in f)}"])[0].split(";")
+                    if np.float32(float(Fraction(mx[0]))) != r_max[0][i, j] or int(mx[1]) != int(r_max[1][i, j]):
+                        return (f"'max'[{i},{j}]: model scan ({float(Fraction(mx[0]))}, {mx[1]}) impl "
+                                f"({r_max[0][i, j]}, {r_max[1][i, j]}) lag function {f}")
+            return None
+        if c < (25 if quick else 200):
+            cor.add(f"pmihist {N} {tm} {cr} {bins} {enc_ints(S.reshape(-1))}", compare)
+        # independent reference: joint entropy from numpy.histogram2d
+        for i in range(N):
+            for j in range(N):
+                for t in range(2 * tm + 1):
+                    h2, _, _ = np.histogram2d(S[tm, i], S[t, j], bins=[np.arange(bins + 1) - 0.5] * 2)
+                    pr = h2[h2 > 0] / cr
+                    exp = (2 * math.log(bins) + float((pr * np.log(pr)).sum())) / math.log(bins)
+                    if abs(exp - float(r_all[t, i, j])) > 1e-5 * (1 + abs(exp)):
+                        ctx.fail({"kind": "pure_python", "method": "_calculate_mi", "check": "reference"},
+                                 "pure-Python _calculate_mi differs from (2 log(bins) - H_joint) / log(bins)",
+                                 {"symbols": lst(S), "tau_max": tm, "bins": bins, "t": t, "i": i, "j": j,
+                                  "expected": exp, "observed": float(r_all[t, i, j])})
+
+    # ---- (4) surrogate matrices on the recorded draw --------------------------------------------
+    for c in range(40 if quick else 300):
+        T = rng.choice([6, 8, 9, 12, 16, 20])
+        N = rng.choice([2, 2, 3])
+        tm = rng.randrange(0, min(3, (T - 3) // 2 + 1))
+        d, feats = gen_data(rng, nprng, T, N, "int")
+        dt = rng.choice([np.float64, np.float32])
+        layout = rng.choice(["C", "F"])
+        data = np.asarray(d.astype(dt), order=layout)
+        seed = rng.randrange(2 ** 31)
+        full_sample = rng.random() < 0.4
+        sr = (T - 2 * tm) if full_sample else rng.randrange(2, T - 2 * tm + 1)
+        with quiet():
+            pp = CouplingAnalysisPurePython(data, silence_level=3)
+            keep = pp.dataarray.copy()
+            ref_all = pp.cross_correlation(tau_max=tm, lag_mode="all")
+            np.random.seed(seed)
+            ts = pp.time_surrogate_for_cc(sample_range=sr, tau_max=tm, lag_mode="all")
+            np.random.seed(seed)
+            perm = np.random.permutation(range(tm, T - tm))[:sr]
+            np.random.seed(seed)
+            ss = pp.shuffled_surrogate_for_cc(tau_max=tm, lag_mode="all")
+            np.random.seed(seed)
+            shuf = []
+            for i in range(N):
+                idx = np.arange(T)
+                np.random.shuffle(idx)
+                shuf.append(idx)
+            np.random.seed(seed)
+            ss_sum = pp.shuffled_surrogate_for_cc(tau_max=tm, lag_mode="sum")
+            np.random.seed(seed)
+            ss_max = pp.shuffled_surrogate_for_cc(tau_max=tm, lag_mode="max")
+            after = pp.cross_correlation(tau_max=tm, lag_mode="all")
+        ctx.case(("surr", T, N, tm, sr, seed, str(dt), layout, d.tobytes().hex()), True)
+        ctx.count(f"surrogate:cc:{'full' if full_sample else 'partial'}:{np.dtype(dt).name}:{layout}")
+        srr = len(perm)
+        cor.add(f"tsurr {T} {N} {tm} {srr} {enc_ints(perm)} {flat_series_major(d)}",
+                (lambda m, ts=ts: None if close(ssq(ts.reshape(-1)), [float(x) for x in dec_rats(m)], 2e-5)
+                 else f"time_surrogate_for_cc: model={m[:160]} impl={ssq(ts.reshape(-1)).tolist()[:12]}"))
+        cor.add(f"ssurr {T} {N} {T - 2 * tm} {enc_ints(np.concatenate(shuf))} {flat_series_major(d)}",
+                (lambda m, ss=ss: None if close(ssq(ss[0].reshape(-1)), [float(x) for x in dec_rats(m)], 2e-5)
+                 else f"shuffled_surrogate_for_cc: model={m[:160]} impl={ssq(ss[0].reshape(-1)).tolist()[:12]}"))
+        sig = {"kind": "pure_python", "method": "surrogate_for_cc"}
+        rep = {"data": lst(d), "dtype": np.dtype(dt).name, "layout": layout, "tau_max": tm, "sample_range": sr,
+               "numpy_seed": seed}
+        if ts.shape != (2 * tm + 1, N, N) or ss.shape != (2 * tm + 1, N, N) or ss_sum.shape != (2, N, N) \
+                or ss_max.shape != (2, N, N):
+            ctx.fail(dict(sig, check="shape"), "surrogate matrix has the wrong shape",
+                     dict(rep, shapes=[list(ts.shape), list(ss.shape), list(ss_sum.shape), list(ss_max.shape)]))
+            continue
+        if not np.array_equal(pp.dataarray, keep) or not np.array_equal(after, ref_all):
+            ctx.fail(dict(sig, check="data_untouched"),
+                     "drawing surrogates changed the object's time series (estimates taken afterwards differ)",
+                     dict(rep, max_change=float(np.abs(pp.dataarray.astype(float) - keep.astype(float)).max())))
+        if srr == T - 2 * tm and not close(ts, ref_all, 2 * TOL):
+            ctx.fail(dict(sig, check="full_sample"),
+                     "time_surrogate_for_cc on a draw that covers every sample time differs from cross_correlation "
+                     "(Lean: time_surrogate_full)", dict(rep, surrogate=lst(ts), estimate=lst(ref_all)))
+        ok = all(np.array_equal(ss[t], ss[0]) for t in range(2 * tm + 1)) \
+            and close(ss_sum[0], np.abs(ss[0]) * (tm + 1.), 1e-6) and close(ss_sum[1], ss_sum[0], 0) \
+            and close(ss_max[0], np.abs(ss[0]), 1e-7) \
+            and np.all(ss_max[1] == np.round(ss_max[1])) and np.all(np.abs(ss_max[1]) <= tm) \
+            and close(ss[0], ss[0].T, 1e-6) and np.all(np.abs(ss) <= 1 + 1e-5)
+        if not ok:
+            ctx.fail(dict(sig, check="shuffled_invariants"),
+                     "shuffled_surrogate_for_cc: slices differ / 'sum' is not |r|(tau_max+1) / 'max' is not |r| with a "
+                     "lag in [-tau_max, tau_max] / not symmetric / not bounded",
+                     dict(rep, all=lst(ss), sum=lst(ss_sum), max=lst(ss_max)))
+        # MI surrogates: tie-free data; a draw that covers every sample time reproduces the estimate
+        bins = rng.choice([2, 3, 4])
+        db = np.column_stack([nprng.permutation(T).astype(float) for _ in range(N)]).astype(dt)
+        srm = T - 2 * tm
+        with quiet():
+            pm = CouplingAnalysisPurePython(np.asarray(db, order=layout), silence_level=3)
+            keepm = pm.dataarray.copy()
+            mi_ref = pm.mutual_information(bins=bins, tau_max=tm, lag_mode="all")
+            np.random.seed(seed)
+            tmi = pm.time_surrogate_for_mi(bins=bins, sample_range=srm, tau_max=tm, lag_mode="all")
+            np.random.seed(seed)
+            smi = pm.shuffled_surrogate_for_mi(bins=bins, tau_max=tm, lag_mode="all")
+            smi_max = pm.shuffled_surrogate_for_mi(bins=bins, tau_max=tm, lag_mode="max")
+            mi_after = pm.mutual_information(bins=bins, tau_max=tm, lag_mode="all")
+        ctx.count("surrogate:mi")
+        sigm = {"kind": "pure_python", "method": "surrogate_for_mi"}
+        repm = {"data": lst(db), "dtype": np.dtype(dt).name, "layout": layout, "tau_max": tm, "bins": bins,
+                "numpy_seed": seed}
+        if tmi.shape != (2 * tm + 1, N, N) or smi.shape != (2 * tm + 1, N, N) or smi_max.shape != (2, N, N):
+            ctx.fail(dict(sigm, check="shape"), "MI surrogate matrix has the wrong shape",
+                     dict(repm, shapes=[list(tmi.shape), list(smi.shape), list(smi_max.shape)]))
+            continue
+        if not np.array_equal(pm.dataarray, keepm) or not np.array_equal(mi_after, mi_ref):
+            ctx.fail(dict(sigm, check="data_untouched"),
+                     "drawing MI surrogates changed the object's time series", repm)
+        if not close(tmi, mi_ref, 2 * TOL):
+            ctx.fail(dict(sigm, check="full_sample"),
+                     "time_surrogate_for_mi on a draw that covers every sample time differs from mutual_information",
+                     dict(repm, surrogate=lst(tmi), estimate=lst(mi_ref)))
+        if not (all(np.array_equal(smi[t], smi[0]) for t in range(2 * tm + 1)) and close(smi[0], smi[0].T, 1e-6)
+                and np.all(np.abs(smi_max[1]) <= tm) and np.all(smi_max[1] == np.round(smi_max[1]))):
+            ctx.fail(dict(sigm, check="shuffled_invariants"),
+                     "shuffled_surrogate_for_mi: slices differ / not symmetric / lag outside [-tau_max, tau_max]",
+                     dict(repm, all=lst(smi), max=lst(smi_max)))
+    cor.run()
+
+    # ---- (5) call histories on one pure-Python object, both float widths / layouts --------------
+    calls = [("cross_correlation", dict(tau_max=1, lag_mode="all")),
+             ("cross_correlation", dict(tau_max=2, lag_mode="max")),
+             ("cross_correlation", dict(tau_max=1, lag_mode="sum")),
+             ("mutual_information", dict(bins=3, tau_max=1, lag_mode="all")),
+             ("mutual_information", dict(bins=4, tau_max=0, lag_mode="max")),
+             ("shuffled_surrogate_for_cc", dict(tau_max=1, lag_mode="all")),
+             ("shuffled_surrogate_for_cc", dict(tau_max=1, lag_mode="max")),
+             ("time_surrogate_for_cc", dict(sample_range=6, tau_max=1, lag_mode="all")),
+             ("shuffled_surrogate_for_mi", dict(bins=3, tau_max=1, lag_mode="sum")),
+             ("time_surrogate_for_mi", dict(bins=3, sample_range=6, tau_max=1, lag_mode="all"))]
+    det = [0, 1, 2, 3, 4]
+    for c in range(16 if quick else 120):
+        T = rng.randrange(10, 24)
+        N = rng.choice([2, 3])
+        dt = [np.float32, np.float64][c % 2]
+        layout = ["C", "F"][(c // 2) % 2]
+        only_tri = (c % 8) >= 6
+        base = (nprng.randint(-8, 9, size=(T, N)) / 2.0).astype(dt)
+        data = np.asarray(base, order=layout)
+        if c % 3 == 0:
+            data = np.ascontiguousarray(base.T).T            # a transposed (Fortran-ordered) view
+        caller_keep = data.copy()
+        with quiet():
+            pp = CouplingAnalysisPurePython(data, only_tri=only_tri, silence_level=3)
+            fresh = CouplingAnalysisPurePython(data.copy(), only_tri=only_tri, silence_level=3)
+            want = {q: getattr(fresh, calls[q][0])(**calls[q][1]) for q in det}
+            held = pp.dataarray.copy()
+            hist = []
+            bad = None
+            for step in range(8):
+                q = rng.randrange(len(calls))
+                np.random.seed(rng.randrange(2 ** 31))
+                hist.append(f"{calls[q][0]}({calls[q][1]})")
+                r = getattr(pp, calls[q][0])(**calls[q][1])
+                if q in det and not np.array_equal(np.asarray(r), np.asarray(want[q]), equal_nan=True):
+                    bad = f"{hist[-1]} differs from the same call on a fresh object"
+                elif not np.array_equal(pp.dataarray, held):
+                    bad = f"the held time series changed during {hist[-1]}"
+                elif not np.array_equal(data, caller_keep):
+                    bad = f"the caller's array changed during {hist[-1]}"
+                if bad:
+                    break
+        ctx.case(("pphist", T, N, np.dtype(dt).name, layout, only_tri, base.tobytes().hex(), tuple(hist)), True)
+        ctx.count(f"history:pure_python:{np.dtype(dt).name}:{layout}:only_tri={only_tri}")
+        if bad:
+            ctx.fail({"kind": "pure_python", "check": "history"},
+                     f"CouplingAnalysisPurePython({np.dtype(dt).name},{layout}): after {hist[:-1]}: {bad}",
+                     {"data": lst(base), "dtype": np.dtype(dt).name, "layout": layout, "only_tri": only_tri,
+                      "history": hist})
 
 # --------------------------------------------------------------------------
 # oracle: compiled vs pure-Python CouplingAnalysis
